@@ -791,6 +791,11 @@ def csm2Oracle (k1 : Nat) (fa1 fb1 : Float) (k2 : Nat) (fa2 fb2 : Float) (pos12 
         judgeSelfExact tag sz S (q pred) c (epaOutside k1 a1 b1 I ⟨c.point1.x, c.point1.y⟩) (epaOutside k2 a2 b2 M ⟨c.point2.x, c.point2.y⟩)
       -- the contact in the frame of shape 1: point2 and normal2 are local to shape 2
       let inFrame1 (c : Contact2 Rat) : Contact3 Rat := embedC ⟨c.point1, M.act c.point2, c.normal1, M.rot c.normal2, c.dist⟩
+      -- `[round]` marks the accuracy class of GJK / EPA on a curved obstacle (value within 0.5 % of the exact one); a coarser
+      -- error on a round shape is tagged `[round-coarse]` and is not covered by any known line
+      let tag := match out with
+        | some c => if rabs (q c.dist - sep) > (5 / 1000) * rabs sep then tag.replace "[round]" "[round-coarse]" else tag
+        | none => tag
       judgeExactContact tag sep t (q pred) over self (out.map fun c => inFrame1 (qcontact2 c)))
   | none, _, _ => "fail unparsable-output"
   | _, _, _ => "skip no-exact-geometry"
@@ -830,6 +835,9 @@ def csm3Oracle (k1 : Nat) (fh1 : V3 Float) (k2 : Nat) (fh2 : V3 Float) (pos12 : 
       let self (c : Contact3 Rat) : String :=
         judgeSelfExact tag sz S (q pred) c (epa3Outside k1 h1 I c.point1) (epa3Outside k2 h2 M c.point2)
       let inFrame1 (c : Contact3 Rat) : Contact3 Rat := ⟨c.point1, M.act c.point2, c.normal1, M.rot c.normal2, c.dist⟩
+      let tag := match out with
+        | some c => if rabs (q c.dist - sep) > (5 / 1000) * rabs sep then tag.replace "[round]" "[round-coarse]" else tag
+        | none => tag
       judgeExactContact tag sep t (q pred) over self (out.map fun c => inFrame1 (qcontact c)))
   | none, _, _ => "fail unparsable-output"
   | _, _, _ => "skip no-exact-geometry"
